@@ -91,6 +91,15 @@ def cases(tier, seed):
     for op in ('FMMetrics', 'FMCoreFeatures', 'FMEstimatedConfigurationsNumber', 'FMAtomicSets'):
         for t in list(cm.k1())[::3] + list(cm.k2_subset())[::5]:
             yield ('HE', op, cm.on_carrier([t]))
+    # two executions that overlap (one preemption: the second runs to completion at any line of the first)
+    F, R, M = sh.F, sh.R, sh.M
+    tm = [M(F('Fa', [R(1, 2, [F('Bb'), F('Dc'), F('Ad')]), R(0, 1, [F('Ee', [R(1, 1, [F('Cf')])])])])),
+          M(F('Fa', [R(2, 3, [F('Bb'), F('Dc', [R(0, 1, [F('Gg')])]), F('Ad'), F('Ee')]), R(1, 1, [F('Cf')])]), [('c1', ('REQUIRES', 'Bb', 'Cf'))]),
+          M(F('Zz', [R(0, 2, [F('Yy'), F('Xx', [R(1, 1, [F('Ww'), F('Vv')])]), F('Uu')])]))]
+    for opa in OPS:
+        for opb in OPS:
+            for (i, j) in ((0, 1), (1, 0), (2, 2)) if tier == 'quick' else ((0, 1), (1, 0), (0, 0), (1, 2), (2, 2), (1, 1)):
+                yield ('XT', opa, opb, tm[i], tm[j])
     # an execution that raises half-way, then the well-formed model (same operation object, fresh one)
     for op in OPS:
         for m in list(sp.structures_upto(4 if tier == 'quick' else 5))[1:] + alpha[-6:]:
@@ -123,6 +132,8 @@ def describe(case):
         return 'H:%s | %s' % (case[1], ' -> '.join(sh.model_str(m) for m in case[2]))
     if case[0] == 'X':
         return 'X:%s,%s | %s' % (case[1], case[2], sh.model_str(case[3]))
+    if case[0] == 'XT':
+        return 'XT:%s preempted by %s | %s || %s' % (case[1], case[2], sh.model_str(case[3]), sh.model_str(case[4]))
     if case[0] in ('HE', 'HF'):
         return '%s:%s | %s' % (case[0], case[1], sh.model_str(case[2]))
     return 'G:%s | leaves=%s pre=%s domain=%s dev<=%d' % (sh.model_str(case[1]), case[2], case[3], case[4], case[5])
@@ -140,6 +151,11 @@ def reduce(case):
     elif case[0] == 'X':
         for r in sh.reductions(case[3], sp.NAME_POOL):
             yield ('X', case[1], case[2], r)
+    elif case[0] == 'XT':
+        for r in sh.reductions(case[3], sp.NAME_POOL):
+            yield ('XT', case[1], case[2], r, case[4])
+        for r in sh.reductions(case[4], sp.NAME_POOL):
+            yield ('XT', case[1], case[2], case[3], r)
     elif case[0] in ('HE', 'HF'):
         for r in sh.reductions(case[2], sp.NAME_POOL):
             if case[0] == 'HE' or sh.size(r) > 1:
@@ -314,6 +330,37 @@ def _scribble(res):
         res.clear()
         return True
     return False
+
+
+def _check_overlap(opa, opb, ma, mb):
+    """Every schedule A[0:k] ; B ; A[k:] of two executions on separate objects: both results are the
+    sequential ones."""
+    from .. import sched
+    try:
+        seq_a = _exec(getattr(ops, opa)(), opa, bd.build(ma))
+        seq_b = _exec(getattr(ops, opb)(), opb, bd.build(mb))
+    except Exception as exc:  # noqa: BLE001
+        return [Fail('fresh-raises:%s' % type(exc).__name__, str(exc)[:200])]
+
+    def make(opname, model):
+        def factory():
+            fm = bd.build(model)
+            op = getattr(ops, opname)()
+            if opname == 'FMFeatureAncestors':
+                op.set_feature(fm.get_features()[-1])
+            return lambda: _norm(op.execute(fm).get_result())
+        return factory
+    try:
+        for k, n, ra, rb in sched.explore(make(opa, ma), make(opb, mb)):
+            engine.tick(2)
+            if ra != seq_a or rb != ('ok', seq_b):
+                return [Fail('overlapping-executions', {'first': opa, 'second': opb, 'second ran at line event': '%d of %d' % (k, n),
+                                                        'first gave': repr(ra)[:150], 'alone': repr(seq_a)[:150],
+                                                        'second gave': repr(rb)[:150], 'alone ': repr(seq_b)[:150]})]
+    except Exception as exc:  # noqa: BLE001
+        return [Fail('overlapping-executions:raises:%s' % type(exc).__name__, {'first': opa, 'second': opb, 'msg': str(exc)[:200]})]
+    engine.validated()
+    return []
 
 
 class _Foreign:
@@ -676,6 +723,8 @@ def check(case):
         return _check_edit_history(case[1], case[2])
     if case[0] == 'HF':
         return _check_failure_history(case[1], case[2])
+    if case[0] == 'XT':
+        return _check_overlap(case[1], case[2], case[3], case[4])
     if case[0] == 'H':
         return _check_history(case[1], case[2])
     if case[0] == 'X':
